@@ -30,4 +30,17 @@ def trFrom : List (α × α) → α → List (α × α)
 
 end
 
+section
+variable {α : Type} [Add α] [Sub α] [Div α] [OfNat α 0] [Max α] [Min α]
+
+/-- `Σ_k |[b_k, b_{k+1}) ∩ [0, t)| / m_k`: the integral of `1/measure` over `[0, t)` as the sum over epochs of
+(length of the overlap of the epoch with `[0, t)`) / measure; the last epoch is unbounded. This is the
+statement of the property in its most literal form. -/
+def overlapSum : List (α × α) → α → α
+  | [], _ => 0
+  | [(b, m)], t => max 0 (t - b) / m
+  | (b, m) :: (b', m') :: rest, t => max 0 (min t b' - b) / m + overlapSum ((b', m') :: rest) t
+
+end
+
 end Tsdate.Demography
